@@ -100,6 +100,9 @@ var mutations = []mutation{
 	{name: "degrees-returns-internal-slice", file: "graph/graph_dense.go",
 		edits:  [][2]string{{"\treturn tmpDegreeSequence\n", "\t_ = tmpDegreeSequence\n\treturn g.DegreeSequence\n"}},
 		expect: `fname := "graph.complement.Degrees"; fexported := true; gwrites := []; swrites := ["graph.complement"]`, lemma: "graph_readonly_b"},
+	{name: "default-math-rand-source", file: "graph/generating.go",
+		edits:  [][2]string{{"\tcode := make([]int, n-2)\n\tr := rand.New(rand.NewSource(seed))\n", "\tcode := make([]int, n-2)\n\trand.Seed(seed)\n\tr := rand.New(rand.NewSource(rand.Int63()))\n"}},
+		expect: `gwrites := ["math/rand.<default source>"]`, lemma: "no_global_writes_b"},
 	{name: "channel-early-return", file: "graph/clique.go",
 		edits:  [][2]string{{"func AllMaximalCliques(g Graph, c chan []int) {\n\tn := g.N()\n", "func AllMaximalCliques(g Graph, c chan []int) {\n\tn := g.N()\n\tif n == 0 {\n\t\treturn\n\t}\n"}},
 		expect: `(CIf CReturn CSkip)`, lemma: "chanskels_b"},
